@@ -217,15 +217,24 @@ def _anc(n):
 
 def r3_envelope(ctx):
     fn = ctx.src.func(RES, "DR_Results._compute_srs")
-    ifs = [n for n in ast.walk(fn) if isinstance(n, ast.If) and ast.unparse(n.test) == "first"]
-    if len(ifs) != 1:
-        raise AnchorError("_compute_srs: `if first:`")
-    st = ifs[0]
-    a = ast.unparse(st.body[0]).replace(" ", "") if len(st.body) == 1 else None
-    b = ast.unparse(st.orelse[0]).replace(" ", "") if len(st.orelse) == 1 else None
-    ok = a == "res.srs.ext[q]=srs_cur" and b in ("res.srs.ext[q]=np.fmax(res.srs.ext[q],srs_cur)", "res.srs.ext[q]=np.fmax(srs_cur,res.srs.ext[q])")
-    ctx.check(ok, "_compute_srs: the envelope is srs_cur on the first case, else fmax(old envelope, srs_cur) - a running maximum "
-                  "independent of which slot j the case occupies", st, {"first": a, "else": b})
+    env_stores = [s for s in ast.walk(fn) if isinstance(s, ast.Assign) and ast.unparse(s.targets[0]).replace(" ", "") == "res.srs.ext[q]"]
+    if not env_stores:
+        raise AnchorError("_compute_srs: no assignment to res.srs.ext[q]")
+    for st in env_stores:
+        v = ast.unparse(st.value).replace(" ", "")
+        names = {n.id for n in ast.walk(st.value) if isinstance(n, ast.Name)}
+        # the envelope over cases processed in ANY order must not depend on which slot j the case occupies
+        ok = "j" not in names
+        ctx.check(ok, "_compute_srs: the envelope value does not depend on the case slot index `j` (cases may be processed in any order)", st,
+                  None if ok else f"`{v}` reads slots by position: with out-of-order processing the unfilled slots are zeros and filled higher slots are dropped")
+        under_first = any(isinstance(a, ast.If) and ast.unparse(a.test) == "first" and any(st is y for x in a.body for y in ast.walk(x))
+                          for a in _anc(st))
+        if v == "srs_cur":
+            ctx.check(under_first, "_compute_srs: the envelope is set to the current spectrum only on the first case", st)
+        else:
+            ok = v in ("np.fmax(res.srs.ext[q],srs_cur)", "np.fmax(srs_cur,res.srs.ext[q])", "np.maximum(res.srs.ext[q],srs_cur)",
+                       "np.maximum(srs_cur,res.srs.ext[q])")
+            ctx.check(ok, "_compute_srs: otherwise the envelope is max(old envelope, current spectrum) - a running maximum", st, v)
     pre = [s for s in ast.walk(fn) if isinstance(s, ast.Assign) and ast.unparse(s.targets[0]).replace(" ", "") == "res.srs.srs[q][j]"]
     ok = len(pre) == 1 and ast.unparse(pre[0].value) == "srs_cur"
     ctx.check(ok, "_compute_srs: the per-case spectrum goes to slot j", pre[0] if pre else fn)
